@@ -178,6 +178,7 @@ type knownFile struct {
 		Status   string `json:"status"` // known | fixed
 		Harness  string `json:"harness"`
 		Label    string `json:"label"`
+		Prefix   string `json:"label_prefix"` // alternative to label: the violation label starts with this text
 		What     string `json:"what"`
 	} `json:"findings"`
 }
@@ -193,7 +194,8 @@ func loadKnown(path string) *knownFile {
 
 func (k *knownFile) match(prop, harness, label string) string {
 	for _, f := range k.Findings {
-		if f.Status == "known" && f.Property == prop && f.Harness == harness && f.Label == label {
+		if f.Status == "known" && f.Property == prop && f.Harness == harness &&
+			((f.Label != "" && f.Label == label) || (f.Prefix != "" && strings.HasPrefix(label, f.Prefix))) {
 			return f.ID
 		}
 	}
